@@ -1711,14 +1711,16 @@ func (c *Conn) writePing() error {
 }
 
 func (c *Conn) handleSettings(st *Settings) {
-	st.CopyTo(&c.serverS)
+	// Only what the frame carries changes; the rest stays as the server left
+	// it (RFC 7540 6.5.3).
+	st.applyTo(&c.serverS)
 
 	atomic.StoreUint32(&c.maxStreams, c.serverS.MaxConcurrentStreams())
 	atomic.StoreUint32(&c.maxFrameSize, c.serverS.MaxFrameSize())
 
 	// The encoder belongs to the write loop, so the new table size is handed
 	// over rather than applied here.
-	atomic.StoreUint32(&c.encTableSize, st.HeaderTableSize())
+	atomic.StoreUint32(&c.encTableSize, c.serverS.HeaderTableSize())
 
 	// A change to SETTINGS_INITIAL_WINDOW_SIZE applies to every stream that is
 	// already open, as a delta on what it has left.
